@@ -6,10 +6,12 @@
 package main
 
 import (
+	"bytes"
 	"flag"
 	"fmt"
 	"go/ast"
 	"go/parser"
+	"go/printer"
 	"go/token"
 	"os"
 	"os/exec"
@@ -96,6 +98,33 @@ func constsOf(path string) (map[string]val, error) {
 	return env, nil
 }
 
+// returnsOf maps every function of a file whose body is a single return statement to the source
+// text of the returned expression (the *shape* of the store keys is tied to the model this way).
+func returnsOf(path string) (map[string]string, error) {
+	fset := token.NewFileSet()
+	f, err := parser.ParseFile(fset, path, nil, 0)
+	if err != nil {
+		return nil, err
+	}
+	out := map[string]string{}
+	for _, d := range f.Decls {
+		fd, ok := d.(*ast.FuncDecl)
+		if !ok || fd.Body == nil || len(fd.Body.List) != 1 || fd.Recv != nil {
+			continue
+		}
+		rs, ok := fd.Body.List[0].(*ast.ReturnStmt)
+		if !ok || len(rs.Results) != 1 {
+			continue
+		}
+		var b bytes.Buffer
+		if err := printer.Fprint(&b, fset, rs.Results[0]); err != nil {
+			return nil, err
+		}
+		out[fd.Name.Name] = strings.Join(strings.Fields(b.String()), " ")
+	}
+	return out, nil
+}
+
 func main() {
 	repo := flag.String("repo", "/repo", "repository root")
 	out := flag.String("out", "", "output Lean file")
@@ -161,7 +190,7 @@ func main() {
 	want(genv, "go-ethereum/params/protocol_params.go", "DifficultyBoundDivisor", "gethDifficultyBoundDivisor")
 	// store key prefixes
 	env, f = load("modules/tibc/core/24-host/keys.go")
-	names := []string{"KeyClientStorePrefix", "KeyClientState", "KeyConsensusStatePrefix", "KeyNextSeqSendPrefix", "KeyPacketCommitmentPrefix",
+	names := []string{"KeyClientStorePrefix", "KeyClientState", "KeyConsensusStatePrefix", "KeySequencePrefix", "KeyNextSeqSendPrefix", "KeyPacketCommitmentPrefix",
 		"KeyPacketAckPrefix", "KeyPacketReceiptPrefix", "KeyCleanPacketCommitmentPrefix", "keyMaxAckSeqPrefix"}
 	var pk []string
 	for _, nm := range names {
@@ -173,6 +202,20 @@ func main() {
 	}
 	sort.Strings(pk)
 	lines = append(lines, "/-- prefixes of the packet sub-store's key families -/", "def hostPacketPrefixes : List String := ["+strings.Join(pk, ", ")+"]")
+	// shapes of the packet keys: the returned expression of every one-line key builder
+	rets, err := returnsOf(filepath.Join(*repo, "modules/tibc/core/24-host/keys.go"))
+	if err != nil {
+		fail("%v", err)
+	}
+	for _, nm := range []string{"packetPath", "NextSequenceSendPath", "PacketCommitmentPath", "PacketCommitmentPrefixPath", "PacketAcknowledgementPath",
+		"PacketAcknowledgementPrefixPath", "PacketReceiptPath", "PacketReceiptPrefixPath", "CleanPacketCommitmentPath", "MaxAckSeqPath",
+		"PacketCommitmentKey", "PacketAcknowledgementKey", "PacketReceiptKey", "CleanPacketCommitmentKey", "MaxAckSeqKey", "NextSequenceSendKey"} {
+		r, ok := rets[nm]
+		if !ok {
+			fail("24-host/keys.go: function %s not found or not a single return statement", nm)
+		}
+		lines = append(lines, fmt.Sprintf("def hostShape_%s : String := %q", nm, r))
+	}
 	// transfer applications
 	env, f = load("modules/tibc/apps/nft_transfer/keeper/relay.go")
 	want(env, f, "CLASSPREFIX", "nftClassPrefix")
